@@ -36,6 +36,9 @@ DecVerdict(e) ==
 
 (* ---------------------------------------------------------------- sweep *)
 Strs(A, n) == UNION {[1..k -> A] : k \in 0..n}
+\* x belongs to the universe of the record e (strings over the alphabet, at most maxlen long, starting with the prefix)
+InU(e, x) == /\ Len(x) <= e.maxlen /\ Len(x) >= Len(e.prefix) /\ SubSeq(x, 1, Len(e.prefix)) = e.prefix
+             /\ \A i \in 1..Len(x) : \E j \in 1..Len(e.alphabet) : e.alphabet[j] = x[i]
 SweepVerdict(e) ==
    LET d == e.d
        A == Range(e.alphabet)
@@ -43,7 +46,7 @@ SweepVerdict(e) ==
        acc == {<<a.s, a.v>> : a \in Range(e.acc)}
        accS == {a.s : a \in Range(e.acc)}
        othS == {o.s : o \in Range(e.oth)}
-       m0 == {[clause |-> "harness: string outside the universe", s |-> x] : x \in (accS \cup othS) \ U}
+       m0 == {[clause |-> "harness: string outside the universe", s |-> x] : x \in {y \in accS \cup othS : ~InU(e, y)}}
                \cup (IF e.n # Cardinality(U) THEN {[clause |-> "harness: universe size differs", s |-> <<>>]} ELSE {})
                \cup {[clause |-> "harness: string recorded twice", s |-> x] : x \in accS \cap othS}
        m1 == {[clause |-> Raised(d, o.s, o.exc, o.fn), s |-> o.s] : o \in Range(e.oth)}
@@ -84,7 +87,7 @@ UnpadSweepVerdict(e) ==
        accS == {a.s : a \in Range(e.acc)}
        othS == {o.s : o \in Range(e.oth)}
        F(x) == UnpadFast(x, e.bs, e.style)
-       m0 == {[clause |-> "harness: string outside the universe", s |-> x] : x \in (accS \cup othS) \ U}
+       m0 == {[clause |-> "harness: string outside the universe", s |-> x] : x \in {y \in accS \cup othS : ~InU(e, y)}}
                \cup (IF e.n # Cardinality(U) THEN {[clause |-> "harness: universe size differs", s |-> <<>>]} ELSE {})
        m1 == {[clause |-> "raised " \o o.exc \o " in " \o o.fn \o ": " \o (IF F(o.s)[1] = "ok" THEN "valid padding" ELSE F(o.s)[2]), s |-> o.s] : o \in Range(e.oth)}
        m2 == {[clause |-> "rejected a valid padding", s |-> x] : x \in {y \in U : F(y)[1] = "ok" /\ y \notin accS /\ y \notin othS}}
@@ -150,8 +153,9 @@ KeyVerdict(e) == First(<<
 KeySweepVerdict(e) ==
    LET A == Range(e.alphabet)
        U == {e.prefix \o t : t \in Strs(A, e.maxlen - Len(e.prefix))}
-       Cls(x) == InputClass(Dec("DerSequence", FALSE), x)
-       m0 == {[clause |-> "harness: string outside the universe", s |-> o.s] : o \in {o \in Range(e.oth) : o.s \notin U}}
+       Cls(x) == LET c == InputClass(Dec("DerSequence", FALSE), x) IN IF c \in {"valid encoding", "tolerated encoding"} THEN "well-formed SEQUENCE" ELSE c
+       m0 == {[clause |-> "harness: string outside the universe", s |-> o.s] : o \in {o \in Range(e.oth) : ~InU(e, o.s)}}
+               \cup {[clause |-> "harness: string outside the universe", s |-> x] : x \in {y \in Range(e.acc) : ~InU(e, y)}}
                \cup (IF e.n # Cardinality(U) THEN {[clause |-> "harness: universe size differs", s |-> <<>>]} ELSE {})
        m1 == {[clause |-> (IF o.exc = "kdf-without-passphrase" THEN "password-based key derivation without a passphrase: " \o Cls(o.s)
                            ELSE "raised " \o o.exc \o " in " \o o.fn \o ": " \o Cls(o.s)), s |-> o.s] :
